@@ -49,7 +49,7 @@ func dedupeCI(names []string) []string {
 
 func identTree(g *exprGen, depth int) *model.Node {
 	r := g.r
-	ids := []string{"a", "A", "b", "B", "abc", "Abc", "ABC", "x1", "_y", "Min", "min", "sum", "\"a\"", "\"two words\"", "\"AND\"", "\"\"\"a\"\"\"", "\"a\"\"b\"", "\"\"\"\"", "\"'abc'\"", "é", "É", "iff", "nulls", "ins", "tk", "t\u212a", "TK"}
+	ids := []string{"a", "A", "b", "B", "abc", "Abc", "ABC", "x1", "_y", "Min", "min", "sum", "\"a\"", "\"two words\"", "\"AND\"", "\"\"\"a\"\"\"", "\"a\"\"b\"", "\"\"\"\"", "\"'abc'\"", "\" a\"", "\"a \"", "\"\u3000a\"", "\"a\u2028\"", "é", "É", "iff", "nulls", "ins", "tk", "t\u212a", "TK"}
 	fns := []string{"Min", "min", "MAX", "Sum", "a", "abc", "f", "Array", "If"}
 	if depth <= 0 || r.Chance(1, 5) {
 		switch r.Intn(6) {
